@@ -203,7 +203,18 @@ func genBundle(r *R, opts FlatOpts, plus bool, thorough bool, force map[string]b
 
 	auxPaths := []string{simRootDir + "/sub/a.json", simRootDir + "/sub/deeper/b.json", simRootDir + "/other/c.json"}
 	r.Shuffle(len(auxPaths), func(i, j int) { auxPaths[i], auxPaths[j] = auxPaths[j], auxPaths[i] })
-	g.docs = append(g.docs, &gDoc{path: simRootDir + "/root.json", isRoot: true})
+	rootPath := simRootDir + "/root.json"
+	if plus {
+		flag("plusDeepRoot", 15)
+	}
+	if g.on("plusDeepRoot") {
+		// W+ only: the root document lives two directories BELOW the auxiliary documents, so that every cross-file
+		// $ref of the root starts with '../../'. W places auxiliary documents in directories nested under the root's;
+		// on such parent-relative bundles the unchanged tree imports the same remote definition under two spellings
+		// and fails with an error (observed), which fail-safety allows.
+		rootPath = simRootDir + "/specs/v1/root.json"
+	}
+	g.docs = append(g.docs, &gDoc{path: rootPath, isRoot: true})
 	for i := 0; i < naux; i++ {
 		g.docs = append(g.docs, &gDoc{path: auxPaths[i]})
 	}
